@@ -358,6 +358,18 @@ def r05d(model: Model, rr: RuleResult):
         par = _parent_attr_call(fi, sd[0])
         ok = facts == [("bounds is not None", True)] and par is not None and norm(par.args[0]) == "color_glyph.ufo_glyph_name" and norm(sd[0].args[0]) == "bounds"
     if ok:
+        # the box a glyph is filed under is the one _bounds returned for that glyph: nothing replaces it on the way (e.g. by a "close enough" box of another glyph)
+        bd = cfg.reaching(cfg.node_for(sd[0]), "bounds")
+        if not (bd and all(isinstance(d.value, ast.Call) and callee_tail(d.value) == "_bounds" for d in bd)):
+            ok = False
+            odd = [d for d in bd if not (isinstance(d.value, ast.Call) and callee_tail(d.value) == "_bounds")]
+            rr.bad(fi, odd[0].stmt if odd and odd[0].stmt is not None else sd[0], f"the box a glyph is recorded under is not always the one _bounds computed for it "
+                   f"({[short(d.stmt) for d in odd if d.stmt is not None]}): a box taken over from another glyph is close to, not a superset of, this glyph's painted bounds",
+                   construct="_colr_ufo: bounds redefined between _bounds() and clipBoxes.setdefault")
+            ok = None
+    if ok is None:
+        pass
+    elif ok:
         rr.ok("each glyph with bounds is recorded under its own name, keyed by its own box; no box when _bounds is None")
     else:
         rr.bad(fi, fi.node, "clip boxes are not recorded per glyph under `bounds is not None`", construct="_colr_ufo: clipBoxes.setdefault")
@@ -395,3 +407,64 @@ def r03f(model: Model, rr: RuleResult):
     de = model.func("write_font", "_draw_glyph_extents")
     if any(callee_tail(c) in ("moveTo", "lineTo", "endPath") for c in calls_in(de)):
         rr.ok("_draw_glyph_extents draws an open contour through the pen")
+
+
+@RULES.rule("C03", "R03g", "the traversal hands every child its own ancestors' transform (nothing is carried over from siblings)", floor=2)
+def r03g(model: Model, rr: RuleResult):
+    """Paint.breadth_first: the transform stored for a child is built from the dequeued context's transform and that context's paint, both re-read in the
+    same iteration.  A running variable that survives from one iteration to the next accumulates the transforms of earlier siblings and cousins."""
+    from ..dataflow import expr_closure
+    fi = model.func("paint", "Paint.breadth_first")
+    cfg = cfg_of(fi)
+    loops = [st for st in walk_body(fi) if isinstance(st, ast.While)]
+    if len(loops) != 1:
+        raise AnalysisError("Paint.breadth_first: while loop not found")
+    lp = loops[0]
+    ctor = [c for c in calls_in(lp, nested=False) if norm(c.func) == "PaintTraverseContext"]
+    if len(ctor) != 1 or len(ctor[0].args) < 3:
+        raise AnalysisError("Paint.breadth_first: PaintTraverseContext(path, paint, transform) for the children not found")
+    targ = ctor[0].args[2]
+    at = cfg.node_for(ctor[0])
+    inside = {cfg.node_for(st) for st in ast.walk(lp) if isinstance(st, ast.stmt) and st is not lp}
+    # every definition that can reach the child's transform is made in this iteration, after the dequeue
+    pops = [st for st in lp.body if isinstance(st, ast.Assign) and isinstance(st.value, ast.Call) and callee_tail(st.value) == "pop"]
+    if not pops:
+        raise AnalysisError("Paint.breadth_first: dequeue not found")
+    pop_n = cfg.node_for(pops[0])
+    ctx = norm(pops[0].targets[0])
+    stale = []
+    seen = set()
+    todo = [(at, targ)]
+    uses_ctx_transform = False
+    uses_paint_transform = False
+    while todo:
+        node, e = todo.pop()
+        for x in ast.walk(e):
+            if isinstance(x, ast.Attribute) and norm(x) == f"{ctx}.transform":
+                uses_ctx_transform = True
+            if isinstance(x, ast.Call) and callee_tail(x) == "gettransform" and norm(x.func.value) == f"{ctx}.paint":
+                uses_paint_transform = True
+        for nm in [x for x in ast.walk(e) if isinstance(x, ast.Name) and isinstance(x.ctx, ast.Load)]:
+            if nm.id in (ctx, "Affine2D", "self"):
+                continue
+            for d in cfg.reaching(node, nm.id):
+                if id(d) in seen:
+                    continue
+                seen.add(id(d))
+                if d.kind in ("param", "import", "def"):
+                    continue
+                if d.node not in inside or not cfg.dominates(pop_n, d.node) or not cfg.dominates(d.node, at):
+                    stale.append((nm.id, d))
+                elif d.value is not None:
+                    todo.append((d.node, d.value))
+    if stale:
+        nm, d = stale[0]
+        rr.bad(fi, d.stmt if d.stmt is not None else lp, f"the transform handed to a child depends on `{nm}` as left by an earlier iteration / set before the loop "
+               f"(`{short(d.stmt) if d.stmt is not None else d.kind}`): transforms of earlier siblings and cousins leak into later children (a group holding two transformed "
+               f"reuses places the second at the first one's offset plus its own)", construct=f"breadth_first: `{nm}` carried across iterations")
+    else:
+        rr.ok("the child's transform is rebuilt in every iteration from values read after the dequeue")
+    if uses_ctx_transform and uses_paint_transform:
+        rr.ok(f"child transform = compose({ctx}.transform, {ctx}.paint.gettransform())")
+    else:
+        rr.bad(fi, ctor[0], f"the child's transform is not built from {ctx}.transform and {ctx}.paint.gettransform()", construct="breadth_first: child transform sources")
